@@ -112,6 +112,12 @@ def strip_cond2(fn, nid):
             if d is not None:
                 nid = d
                 continue
+        if k == "call" and n.get("inl_ret_var"):
+            # the value of a virtually inlined helper is what it returns
+            d = unique_def(fn, n["inl_ret_var"])
+            if d is not None:
+                nid = d
+                continue
         break
     return nid, pol, restrict
 
@@ -409,6 +415,14 @@ def _shapes(ctx, pat, variants=None, inst_re=None):
     from ..facts import AnalysisBroken
     shapes = ctx.facts.shapes(pat)
     if not shapes:
+        merged = ctx.facts.merged_into(pat)
+        if merged:
+            # the helper this rule is anchored in was inlined into its (former) callers: the rule is evaluated there
+            note = "%s no longer exists; its rules are evaluated in its former callers (%s)" % (pat, ", ".join(sorted({f.pat for f in merged}))[:200])
+            if note not in ctx.notes:
+                ctx.notes.append(note)
+            shapes = merged
+    if not shapes:
         # recorded, not raised: if the same run finds a real violation (e.g. the call to this function was removed) that is
         # the verdict; with no violation the run ends analysis-broken (exit 2)
         ctx.broken.append("anchor vanished: function %s is not instantiated" % pat)
@@ -435,9 +449,17 @@ def chain(ctx, rid, pat, steps, why="", variants=None, inst_re=None, mode="dom",
     mode 'dom': every event of step i+1 is dominated by an event of step i.
     mode 'post': every event of step i is followed, on every path to the function exit, by an event of step i+1.
     A step without any matching event is a violation (the required operation was removed)."""
+    inst_label = label or "->".join(mdesc(m) for m in steps)
+    # a step that is a call of a helper that was inlined away (known on the tree the rules were written for, gone now) is transparent:
+    # the helper's own rules are evaluated in the caller (see _shapes)
+    steps = [m for m in steps if not _is_vanished_call(ctx, m, pat)]
+    if len(steps) < 2 and len(steps) < len(inst_label.split("->")):
+        for fn in _shapes(ctx, pat, variants, inst_re):
+            ctx.ok(rid, "%s#%s" % (pat, inst_label), "ordering step refers to a helper that was inlined into this function", fn.where(), nontrivial=False, fn=fn)
+        return
     for fn in _shapes(ctx, pat, variants, inst_re):
         evs = [find(fn, m) for m in steps]
-        inst0 = "%s#%s" % (pat, label or "->".join(mdesc(m) for m in steps))
+        inst0 = "%s#%s" % (pat, inst_label)
         missing = [mdesc(steps[i]) for i, e in enumerate(evs) if not e]
         if missing:
             if optional_first and not evs[0]:
@@ -514,10 +536,25 @@ def guarded(ctx, rid, pat, action, atom, polarity=True, why="", variants=None, i
                     " (no such condition exists)" if not natoms else "", why), fn.where(a), path=describe_path(fn, path), fn=fn)
 
 
+def _is_vanished_call(ctx, m, pat=None):
+    c = m.get("callee")
+    if not (isinstance(c, str) and m.get("k") == "call" and "pred" not in m and "field" not in m):
+        return False
+    if pat and "::" in pat:
+        # a member of the anchored function's own class (the usual case: a private helper)
+        cand = pat.rsplit("::", 1)[0] + "::" + c.split("::")[-1]
+        if cand in ctx.facts.known_patterns:
+            return cand not in ctx.facts.by_pat
+    return ctx.facts.vanished_callee(c)
+
+
 def present(ctx, rid, pat, m, why="", variants=None, inst_re=None, label=None, minimum=1):
     for fn in _shapes(ctx, pat, variants, inst_re):
         evs = find(fn, m)
         inst0 = "%s#%s" % (pat, label or mdesc(m))
+        if not evs and _is_vanished_call(ctx, m, pat):
+            ctx.ok(rid, inst0, "the helper %s was inlined into its callers" % mdesc(m), fn.where(), nontrivial=False, fn=fn)
+            continue
         ctx.check(len(evs) >= minimum, rid, inst0, "%d event(s) %s" % (len(evs), mdesc(m)),
                   "%s must contain %s (found %d, need %d). %s" % (pat, mdesc(m), len(evs), minimum, why), fn.where(), fn=fn)
 
@@ -654,9 +691,15 @@ def flag_license(fn, nid, want_fn, depth=0):
     had the wanted truth value - every definition of the flag is either a constant (false) that cannot make it true or the (possibly negated)
     atom itself; flow-insensitive over all definitions, any unknown write (compound assignment, address taken) disables it."""
     n = fn.nodes[nid]
-    if n["k"] != "ref" or n.get("dk") != "local" or depth > 3:
+    if depth > 3:
         return False, False, set()
-    defs = local_defs(fn, n["name"])
+    if n["k"] == "call" and n.get("inl_ret_var"):
+        vname = n["inl_ret_var"]
+    elif n["k"] == "ref" and n.get("dk") == "local":
+        vname = n["name"]
+    else:
+        return False, False, set()
+    defs = local_defs(fn, vname)
     if not defs or any(d is None for d in defs):
         return False, False, set()
     res = {True: True, False: True}
